@@ -239,3 +239,26 @@ func VerifC19LongLeb128() {
 	}
 	verifCover("C19.longleb.end")
 }
+
+// the empty subset of layer slots: whatever bytes Marshal chooses for an
+// allocation without active layers (the specification's shared-mask form cannot
+// express it), Unmarshal consumes them all and yields an equal value
+func VerifC19NoActiveLayers() {
+	ns := verifCase("streams", 1, 4)
+	v := VLA{RTPStreamCount: ns, RTPStreamID: verifIntn("rid", ns)}
+	raw, err := v.Marshal()
+	if err != nil {
+		verifCover("C19.empty.refused")
+		return
+	}
+	var got VLA
+	if verifCase("used", 0, 1) == 1 {
+		got = VLA{RTPStreamID: 3, RTPStreamCount: 4, HasResolutionAndFramerate: true,
+			ActiveSpatialLayer: []SpatialLayer{{RTPStreamID: 1, SpatialID: 1, TargetBitrates: []int{5}, Width: 7, Height: 7, Framerate: 7}}}
+	}
+	n, err := got.Unmarshal(raw)
+	verifAssert("C19.empty.decodes", err == nil)
+	verifAssert("C19.empty.consumes-all", n == len(raw))
+	verifAssert("C19.empty.equal", got.RTPStreamID == v.RTPStreamID && got.RTPStreamCount == ns && len(got.ActiveSpatialLayer) == 0 && !got.HasResolutionAndFramerate)
+	verifCover("C19.empty.accepted")
+}
